@@ -8,6 +8,7 @@ from ..core import AnalysisError
 from ..rules import gen_c1419 as G
 from ..rules import dim_c1419 as D
 from ..rules import hi_exec as X
+from ..rules import hi_norm as N
 from ..rules import hi_conn as C
 from ..rules.hi_conn import GenSpec
 
@@ -24,7 +25,9 @@ EXPLANATION = (
     "no repeated face, consistent orientation, closedness / border loops, one component, documented counts and the Euler characteristic "
     "of the named shape (R-RANGE, R-TABLE, R-COUNT; bounded in the parameters, exact in everything else; a generator whose effect "
     "on the mesh depends on an opaque value is reported as undecided). Because statements are evaluated with their semantics the "
-    "verdict does not depend on how the generator is written. Geometry: a forward abstract interpretation (length-degree, affine "
+    "verdict does not depend on how the generator is written (records, Enum switches, dictionaries, nested helpers and methods of "
+    "the instance are evaluated like any other code; match / map / partial are first rewritten into their if / comprehension "
+    "equivalents, rules/hi_norm.py). Geometry: a forward abstract interpretation (length-degree, affine "
     "weight, must-dependence, unit-vector facts modulo sin^2+cos^2=1) decides homogeneity, dependence on radius / centre and that a "
     "radius multiplies a unit direction (R-DIM); corner arithmetic of quad / hexahedron_4pts / axis_aligned_cube is decided on the "
     "linear forms of the generated vertices; additionally positional forwarding of switches, the divisor of full-turn angles and "
@@ -49,7 +52,8 @@ RULES = {
               "affine combination (weights sum to 1) of the given points, the requested corners are among them, a face taken in face "
               "order is a parallelogram (alternating corner sum 0) and the top face of the box is the bottom face translated",
     "C14-A1": "a full turn `2*pi*x/T` in a closed generator (or a helper it calls) is divided by the trip count of the loop / "
-              "comprehension variable x it multiplies (otherwise the seam does not close when the two resolutions differ)",
+              "comprehension variable x it multiplies (otherwise the seam does not close when the two resolutions differ); flat_ring: "
+              "consecutive rim points are (2*pi - defect)/N apart (N wedges span one turn minus the defect for any number of coverings)",
     "C14-W1": "chain_of_vertices: `loop=True` yields the cycle over all vertices, `loop=False` the open path (generated edge tables)",
     "C14-R1": "ring: the apex-height search can reach every admissible angle defect: either a loop has an update that moves the "
               "upper bracket end outside the current bracket (not a convex combination of the two ends), taken when the target exceeds "
@@ -61,7 +65,8 @@ RULES = {
               "vector, components whose squares sum to 1 identically",
     "C14-M1": "a generator never mutates shared state in place: a module-level table (list / array display), an entry of a "
               "module-level cache or the result of an lru_cache'd helper is only written through a copy that owns what is written "
-              "(`T[:]` of an array is a view, `copy.copy(mesh)` shares its containers); a redundant copy is never a violation",
+              "(`T[:]` of an array is a view, `copy.copy(mesh)` shares its containers); a public generator never returns such a shared "
+              "object itself (every caller gets its own mesh); a redundant copy is never a violation",
     "C14-D1": "vertex coordinates of the sphere / torus / cylinder generators (and of spherify_vertices / cylindrify_edges) have "
               "length-degree 1, sums are homogeneous, the result is translated by the centre (affine weight 1) and depends on "
               "every radius / centre / end-point parameter",
@@ -71,6 +76,8 @@ ASSUMPTIONS = [
     "admissible resolutions: unit_grid nu,nv >= 2; unit_triangle nu >= nv >= 2; torus segments >= 3; sphere_uv n_lat >= 2, n_long >= 3; "
     "cylinder N >= 3; ring N >= 3 (guarded by the function), n_cover >= 1",
     "the connectivity clauses are decided for every parameter assignment in [min, min+3] per integer parameter (bounded)",
+    "geometry: loops are assumed to run at least once; a path taken only for a count of zero whose result is empty carries no obligation; "
+    "callables handed to private helpers, aliases of functions / bound methods and function-level imports are followed",
     "documented element counts are the ones stated in the docstrings / pinned by tests/test_procedural.py "
     "(sphere_uv: n_lat*n_long + 2 vertices)",
 ]
@@ -130,7 +137,7 @@ def specs():
         GenSpec(SHAPES, "tetrahedron", {}, ["volume"], topo="sphere", counts=lambda p: {"V": "4", "F": {3: "4"}}, cells=True),
         GenSpec(SHAPES, "hexahedron", {}, ["colored", "triangulate", "volume"], fixed=hexa_pts,
                 topo=lambda p: None if p.get("volume") else "sphere", counts=_doc_hexa, cells=True),
-        GenSpec(SHAPES, "axis_aligned_cube", {}, ["colored", "triangulate"], topo="sphere", counts=_doc_hexa),
+        GenSpec(SHAPES, "axis_aligned_cube", {}, ["colored", "triangulate"], topo="sphere", counts=_doc_hexa, float_defaults=True),
         GenSpec(SHAPES, "hexahedron_4pts", {}, ["colored", "volume"], fixed={f"P{i}": _pt(f"P{i}") for i in range(1, 5)},
                 topo=lambda p: None if p.get("volume") else "sphere", counts=_doc_hexa, cells=True),
         GenSpec(SHAPES, "icosahedron", {}, [], topo="sphere", counts=lambda p: {"V": "12", "F": {3: "20"}}),
@@ -166,18 +173,35 @@ def _res(b, expr, at=None, keep=()):
     return G.fast_resolve(b, expr, at, keep)
 
 
+def guarded(ctx, rule, mod, what, f, *args):
+    """run one rule family; an exception of the analysis itself on code it was not prepared for is an *undecided* obligation of that
+    family (never a verdict, never a crash of the whole check).  MSA_HI_RAISE=1 re-raises (development)."""
+    import os
+    try:
+        return f(ctx, *args)
+    except AnalysisError:
+        raise
+    except Exception as e:      # noqa: BLE001 - deliberate: see docstring
+        if os.environ.get("MSA_HI_RAISE"):
+            raise
+        ctx.undecided(rule, ctx.site(mod, "<module>"), f"{what}: the analysis could not process the code", f"internal {type(e).__name__}")
+        return None
+
+
 def run(ctx):
+    N.normalise(ctx.repo, PROC_MODULES)
     runs = {}
     for spec in specs():
-        runs[(spec.mod, spec.name)] = (spec, C.check_generator(ctx, spec, CONN_RULES))
-    w1_chain(ctx)
-    q1_corners(ctx, runs)
-    p1_forwarding(ctx)
-    d1_dimension(ctx)
-    a1_full_turn(ctx)
-    r1_ring_bracket(ctx)
-    u1_unit_directions(ctx)
-    m1_shared_state(ctx)
+        runs[(spec.mod, spec.name)] = (spec, guarded(ctx, "C14-N1", spec.mod, f"connectivity of {spec.name}", C.check_generator, spec, CONN_RULES))
+    guarded(ctx, "C14-W1", LINES, "edge table of chain_of_vertices", w1_chain)
+    guarded(ctx, "C14-Q1", SHAPES, "corner arithmetic", q1_corners, {k: v for k, v in runs.items() if v[1] is not None})
+    guarded(ctx, "C14-P1", SHAPES, "positional forwarding", p1_forwarding)
+    guarded(ctx, "C14-D1", SHAPES, "homogeneity and dependence", d1_dimension)
+    guarded(ctx, "C14-A1", SHAPES, "full-turn divisors", a1_full_turn)
+    guarded(ctx, "C14-A1", RINGS, "wedge angle of flat_ring", a1_flat_ring_wedge)
+    guarded(ctx, "C14-R1", RINGS, "apex search of ring", r1_ring_bracket)
+    guarded(ctx, "C14-U1", SHAPES, "unit directions", u1_unit_directions)
+    guarded(ctx, "C14-M1", SHAPES, "shared state", m1_shared_state)
     ctx.declare_unsupported("connectivity clauses (C14-N1/T1/C1/S1/W1) are decided for integer parameters in [min, min+3] only (bounded evaluation)")
     ctx.declare_unsupported("unit_triangle: only resolutions nu >= nv are analysed (for nu < nv the rows cannot hold 1..nv vertices: declared inadmissible)")
     ctx.declare_unsupported("sphere_fibonacci: connectivity comes from scipy ConvexHull (only C14-D1 / C14-U1 on the coordinates)")
@@ -270,6 +294,13 @@ def dim_obligations(ctx, rule, key, fn, it, geo, require=None):
             ctx.fail(rule, s, f"{what_} have length-degree {D.fmt_deg(v.deg)} instead of 1",
                      f"`{au.src(node)[:120]}`: scaling radius/centre by s must scale the coordinates by s")
             continue
+        if need_aff and isinstance(v.aff, D.AffMix):
+            where = next(iter(it.partial_stores.values()), None)
+            ctx.fail(rule, ctx.site(key[0], fn, where) if where is not None else s,
+                     f"only a part of the {what_.replace('stored', '').strip()} is translated with the centre / end points",
+                     f"`{au.src(where)[:100] if where is not None else au.src(node)[:100]}` changes the affine weight of the rows it addresses only: the produced "
+                     f"rows have affine weights {sorted(str(x) for x in v.aff)} (the rows left out of the slice are not moved when the centre moves)")
+            continue
         if need_aff and v.aff is not None and v.aff != D.ANY and v.aff != 1:
             ctx.fail(rule, s, f"{what_} have affine weight {v.aff} instead of 1 (not translated with the centre / end points)",
                      f"`{au.src(node)[:120]}`: moving the centre by t must move every produced point by t")
@@ -332,6 +363,8 @@ def _weights_sum(P, points):
 
 def _corner_polys(ctx, runs, key, nverts):
     """the vertices generated by the first evaluated run of `key` as linear forms, or (None, reason)"""
+    if key not in runs:
+        return None, "the generator could not be evaluated (see C14-N1)"
     spec, rs = runs[key]
     ok = [r for r in rs if r.status == "ok"]
     if not ok:
@@ -592,6 +625,61 @@ def _height(v):
     return None
 
 
+def _heights(v, env):
+    """possible heights (a small set of numbers) of an expression over the bracket ends bound so far: literals, Vec(0, 0, h),
+    an end, c*end, end/c, end +- end;  None when not derivable"""
+    h = _height(v)
+    if h is not None:
+        return {h}
+    if isinstance(v, ast.Name):
+        return set(env[v.id]) if env.get(v.id) else None
+    if isinstance(v, ast.UnaryOp) and isinstance(v.op, ast.USub):
+        a = _heights(v.operand, env)
+        return {-x for x in a} if a else None
+    if isinstance(v, ast.BinOp):
+        a, b = _heights(v.left, env), _heights(v.right, env)
+        ca, cb = order.fold_const(v.left), order.fold_const(v.right)
+        if isinstance(v.op, ast.Mult):
+            if ca is not None and b:
+                return {ca * x for x in b}
+            if cb is not None and a:
+                return {x * cb for x in a}
+            return None
+        if isinstance(v.op, ast.Div) and cb not in (None, 0) and a:
+            return {x / cb for x in a}
+        if isinstance(v.op, (ast.Add, ast.Sub)) and a and b and len(a) * len(b) <= 16:
+            return {(x + y) if isinstance(v.op, ast.Add) else (x - y) for x in a for y in b}
+    return None
+
+
+def _initial_bracket(f, ends, first_loop):
+    """possible initial heights of the two ends, following the straight-line and conditional statements before the search loop
+    (`if target > f(hi): lo, hi = hi, 2*hi` extends the bracket once)"""
+    env = {}
+
+    def run(stmts, env, conditional):
+        for st in stmts:
+            if getattr(st, "lineno", 0) >= first_loop.lineno:
+                break
+            if isinstance(st, ast.If):
+                e1, e2 = dict(env), dict(env)
+                run(st.body, e1, True)
+                run(st.orelse, e2, True)
+                for k in set(e1) | set(e2):
+                    a, b = e1.get(k), e2.get(k)
+                    env[k] = None if (a is None or b is None) else (set(a) | set(b))
+                continue
+            if isinstance(st, (ast.For, ast.While, ast.Try, ast.With)):
+                for k in {n for s2 in au.stmts([st]) for n, _ in sym.split_assign(s2) if n in ends}:
+                    env[k] = None
+                continue
+            pairs = [(n, v) for n, v in sym.split_assign(st) if n in ends]
+            new = {n: _heights(v, env) for n, v in pairs}      # simultaneous assignment: all right-hand sides first
+            env.update(new)
+    run(list(f.body), env, False)
+    return env
+
+
 def _end_updates(body, ends):
     """[(stmt, end name, value expression, co-assigned names)] for the (re)bindings of the bracket ends in `body`"""
     out = []
@@ -692,18 +780,12 @@ def r1_ring_bracket(ctx):
     loops = [lp for lp in loops if _end_updates(lp.body, ends)]
     first_loop = min(loops, key=lambda l: l.lineno)
     # initial heights of the two ends: literal numbers / Vec(0, 0, h) bound before the first loop
-    init = {}
-    for st in au.stmts(f.body):
-        if st.lineno >= first_loop.lineno:
-            break
-        for name, v in sym.split_assign(st):
-            if name in ends:
-                h = _height(v)
-                if h is None:
-                    init.pop(name, None)
-                    init[name] = None
-                else:
-                    init[name] = h
+    alts = _initial_bracket(f, ends, first_loop)
+    # the widest bracket the search can start from (a conditional one-time extension before the loop included)
+    init = {k: (max(v) if v else None) for k, v in alts.items() if k in ends}
+    if all(alts.get(k) for k in ends) and len(ends) == 2:
+        lo_ = min(ends, key=lambda k: max(alts[k]))
+        init[lo_] = min(alts[lo_])
     updates = []
     for lp in loops:
         updates += [(lp,) + u for u in _end_updates(lp.body, ends)]
@@ -788,6 +870,105 @@ def r1_ring_bracket(ctx):
               f"every update of the two bracket ends is a convex combination of them, so the apex stays below the initial height {H:g}; "
               f"defects up to 2*pi-{eps if eps else '?'} need heights up to {need:.1f}" + wit,
               note=f"ring: fixed bracket up to {H:g} covers all admissible defects")
+
+
+# ----------------------------------------------------------------------- C14-A1 (flat_ring): angle of one wedge
+def _to_rat(e, atom):
+    """rational function (D.Rat) of an arithmetic expression; `atom(node)` names the leaves; None when not arithmetic"""
+    c = au.const(e)
+    if isinstance(c, (int, float)) and not isinstance(c, bool):
+        return D.Rat(Poly.const(Fraction(c).limit_denominator(10 ** 9)))
+    a = atom(e)
+    if a is not None:
+        return D.Rat(Poly.atom(a))
+    if isinstance(e, ast.UnaryOp) and isinstance(e.op, (ast.USub, ast.UAdd)):
+        v = _to_rat(e.operand, atom)
+        return None if v is None else (v if isinstance(e.op, ast.UAdd) else D.Rat(Poly()) - v)
+    if isinstance(e, ast.BinOp) and isinstance(e.op, (ast.Add, ast.Sub, ast.Mult, ast.Div)):
+        l, r = _to_rat(e.left, atom), _to_rat(e.right, atom)
+        if l is None or r is None:
+            return None
+        if isinstance(e.op, ast.Add):
+            return l + r
+        if isinstance(e.op, ast.Sub):
+            return l - r
+        if isinstance(e.op, ast.Mult):
+            return l * r
+        return None if r.num.is_zero() else l / r
+    return None
+
+
+def a1_flat_ring_wedge(ctx):
+    """flat_ring(N, defect, n_cover): N consecutive wedges span one turn minus the defect - the angle between two consecutive rim
+    points is (2*pi - defect)/N, whatever the number of coverings"""
+    from ..rules import hi_flow as F
+    fn = ctx.repo.func(RINGS, "flat_ring")
+    site = ctx.site(RINGS, fn)
+    ps = au.params(fn)
+    if len(ps) < 2:
+        ctx.declare_unsupported("flat_ring: wedge angle not analysed (signature changed)")
+        return
+    n_p, d_p = ps[0], ps[1]
+    mod = ctx.repo.module(RINGS)
+    helpers = {q: f for q, f in mod.funcs.items() if "." not in q and q.startswith("_")}
+    for k_, v_ in F.module_constants(mod.tree).items():
+        helpers["const:" + k_] = v_
+    fl = F.Flow(fn, helpers)
+
+    def atom(n):
+        if isinstance(n, ast.Name):
+            return "pi" if n.id == "pi" else n.id
+        if isinstance(n, ast.Attribute) and n.attr in ("pi", "tau") and au.chain(n) and au.chain(n)[0] in ("np", "numpy", "math"):
+            return "pi" if n.attr == "pi" else None
+        if isinstance(n, ast.Call) and au.call_tail(n) in ("max", "min", "clip", "maximum", "minimum", "float", "_clamp", "clamp") \
+                and any(isinstance(a, ast.Name) and a.id == d_p for a in ast.walk(n)):
+            return d_p          # the clamped defect is the defect (its admissible range is not the point here)
+        if F.is_synth(n, "__range__") or F.is_synth(n, "__index__"):
+            return "⟨step⟩"
+        return None
+    verdicts = []
+    for c in au.calls(fn):
+        t = au.call_tail(c)
+        if t in ("rotate_2d",) and len(c.args) >= 2:
+            ang = c.args[1]
+        elif t in ("cos", "sin") and len(c.args) == 1:
+            ang = c.args[0]
+        else:
+            continue
+        r = fl.resolve(ang, at=c, keep=(n_p, d_p) + tuple(ps[2:]))
+
+        class Tau(ast.NodeTransformer):        # tau = 2*pi
+            def visit_Name(self, node):
+                return ast.BinOp(ast.Constant(2), ast.Mult(), ast.Name("pi", ast.Load())) if node.id == "tau" else node
+
+            def visit_Attribute(self, node):
+                ch = au.chain(node)
+                if ch and ch[-1] == "tau" and ch[0] in ("np", "numpy", "math"):
+                    return ast.BinOp(ast.Constant(2), ast.Mult(), ast.Name("pi", ast.Load()))
+                return node
+        q = _to_rat(Tau().visit(F.clone(r)), atom)
+        if q is None or d_p not in (q.num.atoms() | q.den.atoms()):
+            continue
+        # direct evaluation at step k (angle = k * wedge) or iterated rotation by the wedge
+        if "⟨step⟩" in q.num.atoms():
+            if q.num.degree_in("⟨step⟩") != 1 or "⟨step⟩" in q.den.atoms():
+                continue        # (an offset `(k + 1) * wedge` does not change the spacing)
+            wedge = D.Rat(q.num.coeff("⟨step⟩"), q.den)
+        else:
+            wedge = q
+        pi_ = Poly.atom("pi")
+        want = D.Rat(pi_.scale(2) - Poly.atom(d_p), Poly.atom(n_p))
+        diff = wedge - want
+        verdicts.append((c, wedge, diff.num.is_zero()))
+    if not verdicts:
+        ctx.declare_unsupported("flat_ring: the angle between consecutive rim points is not found as an arithmetic form of pi, defect and N "
+                                "(wedge angle not decided)")
+        return
+    for c, wedge, good in verdicts:
+        ctx.check(good, "C14-A1", ctx.site(RINGS, fn, c), f"flat_ring: consecutive rim points are not (2*pi - {d_p})/{n_p} apart",
+                  f"`{au.src(c)[:80]}`: the angle of one wedge is `({wedge.num})/({wedge.den})`; {n_p} wedges must span one turn minus the defect "
+                  f"whatever the number of coverings (with n_cover > 1 the requested defect is otherwise met only by all coverings together)",
+                  note=f"flat_ring: wedge angle (2*pi - {d_p})/{n_p}")
 
 
 # ----------------------------------------------------------------------- C14-M1
@@ -942,6 +1123,13 @@ def _handouts(repo, mod, tables, cached):
     return out
 
 
+def _immutable_result(fn):
+    """a helper whose every returned value is visibly immutable (tuple / number / string): sharing it is harmless"""
+    rets = [st.value for st in au.stmts(fn.body) if isinstance(st, ast.Return) and st.value is not None]
+    ok = lambda e: isinstance(e, (ast.Tuple, ast.Constant)) or (isinstance(e, ast.Call) and au.call_tail(e) in ("tuple", "frozenset", "float", "int", "str", "bool"))
+    return bool(rets) and all(ok(e) for e in rets)
+
+
 def F_is_np(e):
     c = au.chain(e)
     return bool(c) and c[0] in ("np", "numpy")
@@ -954,7 +1142,17 @@ def m1_shared_state(ctx):
         tables, cached = _shared_sources(mod)
         if not tables and not cached:
             continue
-        _handouts(ctx.repo, mod, tables, cached)
+        cached = {c for c in cached if not (c in mod.funcs and _immutable_result(mod.funcs[c]))}
+        handed = _handouts(ctx.repo, mod, tables, cached)
+        # a public generator hands a *fresh* mesh to each caller: the shared object itself must not be returned
+        for q, (kind, what) in sorted(handed.items()):
+            if q.startswith("_") or kind != "alias" or q in cached:
+                continue
+            fn = mod.funcs[q]
+            ret = next((st for st in au.stmts(fn.body) if isinstance(st, ast.Return) and st.value is not None), None)
+            ctx.fail("C14-M1", ctx.site(modname, fn, ret), f"{q} returns shared state to its callers",
+                     f"the returned object is {what}: every call returns the same object, a caller that edits its result in place "
+                     f"(moving vertices, appending faces) changes what every other caller got and will get")
         for q, fn in mod.funcs.items():
             fl = F.Flow(fn)
             shadow = set(au.params(fn))
@@ -1026,7 +1224,25 @@ def _reaches_vertices(fn, node):
     for s_ in au.stmts(fn.body):
         if _vertex_store(s_) or isinstance(s_, ast.Return):
             seeds |= au.names(s_)
-    rel = closure(assign_deps(fn), seeds)
+    deps = {k: set(v) for k, v in assign_deps(fn).items()}
+    # heap effects: a value stored into / appended to a local container makes the container depend on it
+    for s_ in au.stmts(fn.body):
+        for t_ in au.assign_targets(s_) if isinstance(s_, (ast.Assign, ast.AugAssign, ast.AnnAssign)) else []:
+            if isinstance(t_, (ast.Subscript, ast.Attribute)):
+                root = t_
+                while isinstance(root, (ast.Subscript, ast.Attribute)):
+                    root = root.value
+                if isinstance(root, ast.Name) and getattr(s_, "value", None) is not None:
+                    deps.setdefault(root.id, set()).update(au.names(s_.value))
+        if isinstance(s_, ast.Expr) and isinstance(s_.value, ast.Call) and isinstance(s_.value.func, ast.Attribute) \
+                and s_.value.func.attr in ("append", "extend", "insert", "add", "update", "appendleft"):
+            root = s_.value.func.value
+            while isinstance(root, (ast.Subscript, ast.Attribute)):
+                root = root.value
+            if isinstance(root, ast.Name):
+                for a_ in s_.value.args:
+                    deps.setdefault(root.id, set()).update(au.names(a_))
+    rel = closure(deps, seeds)
     bound = {n for t in au.assign_targets(st) for n in au.assigned_names(t)}
     if isinstance(st, (ast.For, ast.AsyncFor)):
         bound |= set(au.assigned_names(st.target))
